@@ -28,7 +28,7 @@ ENCODING_ASSUMPTIONS = [
 
 
 # properties whose deciding content is mostly NOT deductive are reported as `other`, with the explanation below
-LEVEL_OVERRIDE = {"C07": "other", "C20": "other", "C04": "other", "C06": "other", "C10": "other", "C01": "other", "C05": "other"}
+LEVEL_OVERRIDE = {"C07": "other", "C20": "other", "C06": "other", "C10": "other", "C01": "other", "C05": "other"}
 
 
 def _strip_line(n):
@@ -169,10 +169,11 @@ def finish(prop, tier, seed, reg, repo, results, extra, t0):
         groups.append((g.get("function", g["name"].split("/")[0]), g["name"], g))
         lib_used.update(g.get("assumes", []))
 
-    if crashed:
-        for r in crashed:
-            print(f"CHECKER-ERROR: {r['key']}: {r['reason']}")
-        return 3
+    # a prover crash on one function is never a violation and never a success: the function counts as undecided, the
+    # bounded stand-ins still run (they may find a failing input -> exit 1), otherwise the run ends with exit 3
+    for r in crashed:
+        print(f"CHECKER-ERROR: {r['key']}: {r['reason']}")
+        undecided_funcs.append(dict(r, reason="prover crashed: " + r["reason"].splitlines()[0]))
     if vacuous:
         for r in vacuous:
             print(f"CHECKER-ERROR: vacuous verification of {r['key']}: {r['reason']}")
@@ -250,6 +251,8 @@ def finish(prop, tier, seed, reg, repo, results, extra, t0):
         print("CHECKER-ERROR: runtime layer failed:\n" + bounded["error"])
         if exit_code == 0:
             exit_code = 3
+    if crashed and exit_code == 0:
+        exit_code = 3
 
     # ------------------------------------------------------------------ evidence
     by_backend = {}
